@@ -296,7 +296,7 @@ def stats(ctx: Ctx):
         for s in p.stores:
             got[flow.dump(s.raw)] = flow.dump(s.value) if s.value is not None else None
     vk = [v for k, v in got.items() if k.startswith("self.stats.vkt[")]
-    ok = bool(vk) and all("report['distance_km']" in v for v in vk) and "ReportType.VEHICLE_MOVE_EVENT" in ctx.repo.module(SH).segment(h.node)
+    ok = bool(vk) and all("report['distance_km']" in v and "ReportType.VEHICLE_MOVE_EVENT" in v for v in vk)
     ctx.check(ok, "D2", "EV.stats", "vkt += distance_km of the move events", h, why_bad=f"{vk}", construct="StatsHandler.handle:vkt")
     wait_time(ctx)
 
